@@ -1,12 +1,13 @@
 (* C14 -- the boolean checker of Corr/C14.v decides the property on an observation:
    [check c = []] exactly when every observed reply satisfies what the property
-   demands of its request ([sat_reply] against [fixed_reply]). *)
+   demands of its request ([Api.Spec.satisfies] against [Api.Spec.spec_of], the specification
+   written from the property text; the model is not consulted for the verdict). *)
 From Coq Require Import List String ZArith Bool Lia.
 Import ListNotations.
-From Onet Require Import Api.Rest Api.RestConc Corr.C14.
+From Onet Require Import Api.Rest Api.RestConc Api.Spec Api.SpecProofs Corr.C14.
 
 Definition sat (clients : list ckind) (cr : creq) (o : reply) : Prop :=
-  sat_reply (is_ws cr) (fixed_reply c14_world clients cr) o = true.
+  satisfies (req_is_ws cr) (spec_of c14_world clients cr) o = true.
 
 Definition observation_ok (clients : list ckind) (rounds : list (list creq)) (obs : list (list reply)) : Prop :=
   Forall2 (Forall2 (sat clients)) rounds obs.
@@ -29,7 +30,7 @@ Proof.
   - split.
     + intro H. apply app_eq_nil in H as [H1 H2].
       constructor; [|now apply (IH os (S i))].
-      unfold sat. destruct (sat_reply _ _ _); [reflexivity|discriminate].
+      unfold sat. destruct (satisfies _ _ _); [reflexivity|discriminate].
     + intro H. inversion H as [|? ? ? ? H1 H2]; subst.
       unfold sat in H1. rewrite H1. simpl. now apply IH.
 Qed.
@@ -55,21 +56,18 @@ Theorem check_decides clients rounds obs :
   check (Case clients rounds obs) = [] <-> observation_ok clients rounds obs.
 Proof. unfold check. rewrite dedup_nil. apply check_rounds_nil. Qed.
 
-(* what [sat] means: the reply computed from this request alone; on the websocket an
-   error may also arrive as a close without reason (the reason text of a decode error
-   is the library's, and a reason longer than a close frame is not sent at all) *)
+(* what [sat] means: Api/SpecProofs.v satisfies_ok (a request the handler answers: exactly
+   that reply) and satisfies_error (any other request: an error reply, and if it names a
+   handler failure, this request's). *)
 Theorem sat_meaning clients cr o :
   sat clients cr o <->
-  let s := fixed_reply c14_world clients cr in
-  reply_eqb s o = true \/
-  (is_ws cr = true /\ is_err s = true /\ exists t', o = RErr EAbnormal t').
+  match spec_of c14_world clients cr with
+  | SOk tag m => o = ROk tag m
+  | SError own => reports_error (req_is_ws cr) o = true /\
+                  (forall t, names_failure o = Some t -> own = Some t)
+  end.
 Proof.
-  unfold sat, sat_reply. cbv zeta.
-  set (s := fixed_reply c14_world clients cr). split.
-  - intro H. apply orb_true_iff in H as [H|H]; [now left|].
-    right. apply andb_true_iff in H as [H1 H2]. apply andb_true_iff in H1 as [H0 H1].
-    destruct o as [tg m|c' t']; [discriminate|]. destruct c'; try discriminate. eauto.
-  - intros [H|[H1 [H2 [t' Ho]]]].
-    + rewrite H. reflexivity.
-    + rewrite H1, H2, Ho. simpl. apply orb_true_r.
+  unfold sat. destruct (spec_of c14_world clients cr) as [tag m|own].
+  - apply satisfies_ok.
+  - apply satisfies_error.
 Qed.
